@@ -1613,6 +1613,17 @@ func replayFile(path string, bs []int) {
 		replayEdge(ec.Edge)
 		return
 	}
+	var sc struct {
+		Storm stormCase `json:"storm"`
+	}
+	if json.Unmarshal(doc.Replay, &sc) == nil && sc.Storm.Workers > 0 && sc.Storm.Ops > 0 {
+		if sc.Storm.Class < 0 || sc.Storm.Class >= len(slots) {
+			fmt.Println("bad replay file: class out of range")
+			os.Exit(3)
+		}
+		replayStorm(sc.Storm)
+		return
+	}
 	var nc struct {
 		Node nodeCase `json:"node"`
 	}
@@ -1940,6 +1951,11 @@ func main() {
 		runEdgeStream(vlib.NewRng(r.Seed*0x9E3779B97F4A7C15+0xED6E), r.N(20, 80)) // own PRNG stream: the cases of the other streams stay what they were
 	}
 
+	// 5b''. header-counter storm: many goroutines hammering ONE page header of a dense class (storm.go)
+	if only == "" || only == "storm" {
+		runStormStream(vlib.NewRng(r.Seed*0x9E3779B97F4A7C15+0x5708), r.N(8, 24), r.N(2500, 6000)) // own PRNG stream
+	}
+
 	// 5c. the allocator as wired into the node: InitConfig, UTXO commits, run-time config changes, defrag_utxo (node.go)
 	if only == "" || only == "node" {
 		runNodeStream(g, r.N(4, 16), bs)
@@ -1957,11 +1973,11 @@ func main() {
 		"os.Getpagesize() = 4096 and a 64-bit target (slice header 24 bytes, page_header 32 bytes: recomputed from the struct declaration on every run)",
 		"callers free only pointers returned by Malloc and not yet freed, do not write outside [0,Len) and do not modify the slice header",
 		"DefragAllImproved runs while no Malloc/Free is in progress (as its comment requires)",
-		"one model step per Malloc/Free call covers all interleavings of calls because each body runs under the mutex of the class it edits: checked source fact (gen_c20/locks.go extracts the Lock() index and every per-class access of Malloc/Free and their callees; Props.C20.malloc_locks_own_class / free_locks_own_class); sync.Mutex itself and memory-level races inside slot memory are outside the model (the concurrent and churn streams explore them on the real code only)",
+		"one model step per Malloc/Free call covers all interleavings of calls because each body runs under the mutex of the class it edits: checked source fact (gen_c20/locks.go extracts the Lock() index, every per-class slice access AND every access to a field of a page header / free-list node of Malloc/Free and their callees, and requires them between Lock() and Unlock() — only the read of header.class that selects the mutex may lie outside; Props.C20.malloc_locks_own_class / free_locks_own_class); not pinned by that fact: accesses through function values or other packages, the slot's own slice header; sync.Mutex itself, the memory model and races inside slot memory are outside the model (the concurrent, churn, edge and storm streams explore them on the real code only, schedule-dependent)",
 		"pointer layer: the model keeps every link field (node.prev/next/prevInPage/nextInPage, header.prev/next/freeList, lists/firstPage/lastPage) next to the abstract lists; Props.C20.rep_inv proves they spell the lists, the harness compares every field reachable through pointers with the real allocator's memory (VerifLinks) and also walks next/prev in both directions",
-		"node wiring: which functions write common.Memory / utxo.Memory_Malloc / utxo.Memory_Free and from where they are reachable is a regenerated source fact (gen_c20/wire.go, syntactic mention graph over client/ and lib/utxo/); the TextUI / WebUI config handlers are mirrored by the harness (copy CFG + fragment + Reset, save + load + Reset, whole JSON + Reset), not called",
+		"node wiring: which functions write common.Memory / utxo.Memory_Malloc / utxo.Memory_Free and from where they are reachable is a regenerated source fact (gen_c20/wire.go, syntactic mention graph over client/, lib/utxo/ and every module package in their transitive import closure — lib/chain, lib/btc, lib/script, lib/others/…; function literals count as part of the function they are written in, `x.Name` as a mention of every method called Name; NOT seen: writes through reflection, go:linkname, unsafe pointers or an alias `p := &utxo.Memory_Free` taken in one function and written through in another — taking the address itself counts as a write); the node stream commits blocks through UnspentDB.CommitBlockTxs, not through lib/chain.AcceptBlock; the TextUI / WebUI config handlers are mirrored by the harness (copy CFG + fragment + Reset, save + load + Reset, whole JSON + Reset), not called",
 		"sort.Slice is not stable: the model takes the evacuation order observed on the real allocator and checks it against the selection rule (sorted by used, stop when recordsToFree >= target); theorems hold for every legal order",
 	}
-	r.Finish("corpus: every size-class boundary (slot-1, slot, slot+1 for all classes of the generated table), the private-mapping boundaries and 200 KiB; page-edge traces; random mixed traces; single-class traces; defragmentation scenarios at 5 fragmentation patterns (uniform, whole pages emptied, equal use on every page, at the 12-page threshold, everything freed) each followed by an aftermath and a second pass; 2..16-goroutine phases with barrier checks and defrag; steady-state churn cases (2..4 goroutines sharing 1..3 size classes in free-list mode, the classes walking a permutation of all dense small classes); mode-edge contention cases (2..16 goroutines released together in one class that was put k slots before the end of its bump region / of its free list / dry, 10..17 rounds each); node lives (InitConfig in allocator or Go-heap mode, raw Malloc/Free, UTXO blocks with partial and full spends, large-class waves, config changes of 27 settings in three forms with Memory.UseGoHeap flipped at least once, defrag_utxo ticks). distinct = distinct traces (name, length, middle op); every trace reaches Malloc and Free on the real allocator",
+	r.Finish("corpus: every size-class boundary (slot-1, slot, slot+1 for all classes of the generated table), the private-mapping boundaries and 200 KiB; page-edge traces; random mixed traces; single-class traces; defragmentation scenarios at 5 fragmentation patterns (uniform, whole pages emptied, equal use on every page, at the 12-page threshold, everything freed) each followed by an aftermath and a second pass; 2..16-goroutine phases with barrier checks and defrag; steady-state churn cases (2..4 goroutines sharing 1..3 size classes in free-list mode, the classes walking a permutation of all dense small classes); mode-edge contention cases (2..16 goroutines released together in one class that was put k slots before the end of its bump region / of its free list / dry, 10..17 rounds each); header-counter storms (8..16 goroutines, thousands of Mallocs each with a third freed again, in one dense class so that all of them update one page header); node lives (InitConfig in allocator or Go-heap mode, raw Malloc/Free, UTXO blocks with partial and full spends, large-class waves, config changes of 27 settings in three forms with Memory.UseGoHeap flipped at least once, defrag_utxo ticks). distinct = distinct traces (name, length, middle op); every trace reaches Malloc and Free on the real allocator",
 		"single-threaded traces are compared step by step with the Lean model (address, Len/Cap, counters, complete per-class state incl. free-list order, every link field of the pointer layer, relocate sequence); independently of the model the property predicate is evaluated on the real allocator: fill pattern on free/relocate/end, overlap registry over all live slot ranges, Len/Cap/Data, Allocs = live, slot-by-slot 'live xor on free list', relocate exactly once")
 }
